@@ -267,7 +267,34 @@ Definition is_delim (c : ascii) : bool :=
 
 Fixpoint str_map (f : ascii -> ascii) (s : string) : string :=
   match s with EmptyString => EmptyString | String c r => String (f c) (str_map f r) end.
-Definition lowercase (s : string) : string := str_map to_lower s.
+
+(** [str::to_lowercase] on UTF-8 bytes: ASCII, and the two-byte letters of Latin-1 Supplement
+    (U+00C0-U+00DE except U+00D7), the Greek capitals except sigma (U+0391-U+03A9; the lowercase
+    of sigma depends on its position) and Cyrillic (U+0400-U+042F); every other byte sequence is
+    copied (the generators use no other cased letters in identifiers - a restriction of the
+    model, see DESIGN.md 8) *)
+Definition lower2 (n1 n2 : N) : option (N * N) :=
+  if (n1 =? 195)%N && (128 <=? n2)%N && (n2 <=? 158)%N && negb (n2 =? 151)%N then Some (195, n2 + 32)%N
+  else if (n1 =? 206)%N && (145 <=? n2)%N && (n2 <=? 159)%N then Some (206, n2 + 32)%N
+  else if (n1 =? 206)%N && (160 <=? n2)%N && (n2 <=? 169)%N && negb (n2 =? 162)%N && negb (n2 =? 163)%N then Some (207, n2 - 32)%N
+  else if (n1 =? 208)%N && (128 <=? n2)%N && (n2 <=? 143)%N then Some (209, n2 + 16)%N
+  else if (n1 =? 208)%N && (144 <=? n2)%N && (n2 <=? 159)%N then Some (208, n2 + 32)%N
+  else if (n1 =? 208)%N && (160 <=? n2)%N && (n2 <=? 175)%N then Some (209, n2 - 32)%N
+  else None.
+
+Fixpoint lowercase (s : string) : string :=
+  match s with
+  | EmptyString => EmptyString
+  | String c1 r1 =>
+    match r1 with
+    | String c2 r2 =>
+      match lower2 (N_of_ascii c1) (N_of_ascii c2) with
+      | Some (m1, m2) => String (ascii_of_N m1) (String (ascii_of_N m2) (lowercase r2))
+      | None => String (to_lower c1) (lowercase r1)
+      end
+    | EmptyString => String (to_lower c1) EmptyString
+    end
+  end.
 
 (** convert_case 0.6, [Boundary::defaults()]: is there a word boundary just before [d]
     ([c] precedes it, [e] follows) *)
